@@ -8,7 +8,9 @@ package main
 // range argument for Rest; nothing computed here is trusted.
 
 import (
+	"fmt"
 	"math/big"
+	"os"
 	"sort"
 	"strings"
 )
@@ -166,8 +168,38 @@ func (pc *polyCtx) nf1(t *Term) *poly {
 	case "div":
 		return pc.atom(canonDiv(t.Args[0], t.Args[1]))
 	}
-	// ite, select, uninterpreted applications: opaque atoms
-	return pc.atom(t)
+	// ite, select, uninterpreted applications: opaque atoms, with definitions of index
+	// terms expanded so that the same memory cell always yields the same atom
+	return pc.atom(pc.expandFull(t, 0))
+}
+
+// expandFull rebuilds a term with every named Int definition inside it expanded.
+func (pc *polyCtx) expandFull(t *Term, depth int) *Term {
+	if depth > 40 {
+		return t
+	}
+	switch t.Op {
+	case "const", "zeroarr":
+		return t
+	case "sym":
+		if d, ok := curDefs[t.Name]; ok && (d.Op == "+" || d.Op == "sym" || d.Op == "const" || d.Op == "*" || d.Op == "select") {
+			return pc.expandFull(d, depth+1)
+		}
+		return t
+	case "+":
+		args := make([]*Term, len(t.Args))
+		for i, a := range t.Args {
+			args[i] = pc.expandFull(a, depth+1)
+		}
+		return Add(args...)
+	case "*":
+		if len(t.Args) == 2 {
+			return Mul(pc.expandFull(t.Args[0], depth+1), pc.expandFull(t.Args[1], depth+1))
+		}
+	case "select":
+		return mk("select", t.Sort, pc.expandFull(t.Args[0], depth+1), pc.expandFull(t.Args[1], depth+1))
+	}
+	return t
 }
 
 // canonDiv rebuilds the div term so that mod and div of the same operands share an atom.
@@ -191,6 +223,19 @@ func modWitness(x *Term, m *big.Int, monoDefs map[string][2]*Term) (k, rest *Ter
 	p := pc.nf(x)
 	if p.fail != "" {
 		return nil, nil, false, p.fail
+	}
+	if os.Getenv("GOCV_DEBUG_POLY") != "" {
+		fmt.Fprintf(os.Stderr, "modWitness: %d monomials, %d steps\n", len(p.coef), pc.steps)
+		for key, c := range p.coef {
+			r := new(big.Int).Mod(c, m)
+			if r.Sign() != 0 {
+				ks := key
+				if len(ks) > 160 {
+					ks = ks[:160]
+				}
+				fmt.Fprintf(os.Stderr, "  nondiv coef %s  [%s]\n", c.String(), ks)
+			}
+		}
 	}
 	half := new(big.Int).Rsh(m, 1)
 	var ks, rs []*Term
@@ -225,4 +270,55 @@ func modWitness(x *Term, m *big.Int, monoDefs map[string][2]*Term) (k, rest *Ter
 		return mk("+", SInt, ts...)
 	}
 	return sum(ks), sum(rs), true, ""
+}
+
+// polyLite normalises only the ring structure (+, -, *, constants) of a term, looking
+// through named definitions of sums/products/loads; every other subterm is an atom given
+// by atomOf. Used to distribute products over sums before nonlinear abstraction.
+func polyLite(t *Term, atomOf func(*Term) *Term, depth int) *poly {
+	if c := t.IntConst(); c != nil {
+		p := newPoly()
+		p.add(c, nil)
+		return p
+	}
+	if depth > 60 {
+		p := newPoly()
+		p.add(big.NewInt(1), []*Term{atomOf(t)})
+		return p
+	}
+	switch t.Op {
+	case "sym":
+		if d, ok := curDefs[t.Name]; ok && d.Sort == SInt && (d.Op == "+" || d.Op == "*" || d.Op == "sym" || d.Op == "const" || d.Op == "select" || d.Op == "-") {
+			return polyLite(d, atomOf, depth+1)
+		}
+	case "+":
+		p := newPoly()
+		for _, a := range t.Args {
+			p.addPoly(polyLite(a, atomOf, depth+1), big.NewInt(1))
+		}
+		return p
+	case "-":
+		p := newPoly()
+		if len(t.Args) == 1 {
+			p.addPoly(polyLite(t.Args[0], atomOf, depth+1), big.NewInt(-1))
+			return p
+		}
+		p.addPoly(polyLite(t.Args[0], atomOf, depth+1), big.NewInt(1))
+		for _, a := range t.Args[1:] {
+			p.addPoly(polyLite(a, atomOf, depth+1), big.NewInt(-1))
+		}
+		return p
+	case "*":
+		p := polyLite(t.Args[0], atomOf, depth+1)
+		for _, a := range t.Args[1:] {
+			p = polyMul(p, polyLite(a, atomOf, depth+1))
+			if p.fail != "" {
+				break
+			}
+		}
+		return p
+	}
+	p := newPoly()
+	p.add(big.NewInt(1), []*Term{atomOf(t)})
+	return p
 }
